@@ -164,10 +164,13 @@ CLAIMED = {
         "crates already declared - never a second line for one that is (z3 decides the name equalities), never `*`; (b) X-add_rust_crate: for each of the 19 known-good crates "
         "exactly its documented pin is recorded, for any other name nothing is recorded and Err(UnknownCrateError) is returned - the invariant (every recorded spec is Some) under "
         "which (a) is decided; (a) also demands that [package] name and the [[bin]] / [lib] name are the project's name as given; (c) X-generate_writes: every successful path of "
-        "ProjectGenerator::generate (thorough: generate_multi too) writes, to <out>/Cargo.toml, the manifest generated in that same call. Replay: `replay cargotoml` (projects through "
+        "ProjectGenerator::generate (thorough: generate_multi too) writes, to <out>/Cargo.toml, the manifest generated in that same call; (d) the feature scanners that set the "
+        "need-flags (X-scan_json_stringify, X-scan_async, X-scan_serde_derive): every arm of the serde / async AST walkers, executed with the walker family's recursive calls as "
+        "uninterpreted answers, asks about EVERY sub-expression and statement list of its node (children computed from the type definitions), and detect_serde_usage looks at "
+        "every decorator of every model / class before answering no - so the crate is declared wherever the construct stands. Replay: `replay cargotoml` (projects through "
         "the public ProjectGenerator API in several processes, a rebuild into the same directory, a hyphenated project name; dev and release).",
-   note="Kernel-only: whether the need-flags agree with what the emitter writes (feature scanners vs use-line insertion), [package] / [[bin]] naming, output-dir validation and the "
-        "CLI's handling of the error are NOT covered; the round-5 seeded change in the serde scanner is outside. Two genuine defects were repaired in /repo (unknown crates "
+   note="Kernel-only: whether the walkers' notion of 'the construct' (which calls need serde / tokio) agrees with the emitter's use-line insertion, the web scanner, [package] / [[bin]] naming, output-dir validation and the "
+        "CLI's handling of the error are NOT covered. Three genuine defects were repaired in /repo (scanners skipping parts of the AST; unknown crates "
         "declared as `*`; dependency order, see C12).",
    ref="DESIGN.md section 0.7, C15"),
  "C16": dict(
